@@ -43,6 +43,10 @@ CLAIMED.update({
  'C12': dict(text='Box (index lists for every sub-box and ACTNUM pattern, bounds validation) and the FieldProps.cpp operation kernels - apply(EQUALS/MULTIPLY/ADD/MINVALUE/MAXVALUE) in sequences of two operations, assign_deck with deck/default/empty entries - run on a 2x2x2 grid with symbolic activity, box corners, operands and value-status flags; every active cell is compared with a reference interpreter that only knows the global array, so the value in an active cell cannot depend on which other cells are inactive.',
              note='doubles as reals; 2x2x2 grid, a few cells with symbolic activity/status; section drivers, keyword dispatch and default tables, COPY/OPERATE/region variants and integer arrays outside', design='4/C12'),
 })
+CLAIMED.update({
+ 'C11': dict(text='Serializer<MemPacker>::pack/unpack run symbolically: every container handler (POD, string, vector, vector<bool>, array, optional, variant, pair/tuple, map, set, shared_ptr identity) and the real serializeOp of flat classes with every scalar member symbolic (doubles as arbitrary bit patterns); z3 decides that the unpacked object equals the original member by member (bit-exact), that the size pass equals the write pass, that unpack consumes exactly the packed bytes, and that re-packing gives the same bytes (same length where shared-pointer identities - raw addresses - are involved).',
+             note='containers of 2-3 elements; EclipseState/Schedule/SummaryConfig and all pointer-rich classes (Well, Group, UDQConfig, ...) are outside: a member dropped from their serializeOp is not seen', design='4/C11'),
+})
 NA = {
 }
 ALL = ['C%02d' % i for i in range(1, 21)]
